@@ -144,6 +144,19 @@ fn alphabet() -> Vec<Dev> {
         s.aci = true;
         true
     }));
+    // enum-level attributes that must not reach a forwarding variant: the prefix is not printed before the inner value, the
+    // custom error function never runs when a default variant accepts everything
+    d.push(dev("prefix=\"p/\"", &["prefix"], |s| {
+        s.prefix = Some("p/".into());
+        true
+    }));
+    d.push(dev("parse_err_ty/fn (custom error)", &["perr"], |s| {
+        if !s.generics.is_empty() {
+            return false;
+        }
+        s.parse_err = true;
+        true
+    }));
     d.push(dev("serialize_all=\"snake_case\"", &["style"], |s| {
         s.serialize_all = Some("snake_case".into());
         true
@@ -238,7 +251,8 @@ pub fn explore(ctx: &mut Ctx, from_str: &mut dyn FnMut(&str) -> Obs, try_from: &
     let spec = ctx.spec().clone();
     let inp = family_inputs(ctx);
     // the Debug text of a Box<str> / String payload is the same, so R-parse covers the capture
-    explore_parse(ctx, "", &inp, from_str, try_from, &|_| "VariantNotFound".to_string());
+    let custom = spec.parse_err;
+    explore_parse(ctx, "", &inp, from_str, try_from, &|s| if custom { format!("MyErr({:?})", s) } else { "VariantNotFound".to_string() });
     let dflt = spec.variants.iter().enumerate().find(|(_, v)| v.default && !v.disabled);
     if let Some((di, dv)) = dflt {
         for s in &inp {
@@ -247,8 +261,10 @@ pub fn explore(ctx: &mut Ctx, from_str: &mut dyn FnMut(&str) -> Obs, try_from: &
                     continue;
                 }
                 ctx.transition();
+                // a default variant WITH to_string is an ordinary named variant for Display (prefix + literal); without it the
+                // captured input is printed as it is (no prefix)
                 let want = match &dv.to_string {
-                    Some(t) => t.clone(),
+                    Some(t) => format!("{}{}", spec.prefix.clone().unwrap_or_default(), t),
                     None => s.clone(),
                 };
                 let got = rt(s);
